@@ -722,6 +722,18 @@ def check_C01(args):
                 if i % 2:
                     d.flush(rng.choice(gtabs).name)
             yield scenario_from_hist("C01-d%d" % di, gtabs, menu, d.h), gtabs
+        for di in range(4 if quick else 40):
+            # the aggregate catalogue under flushes: few keys and periods, points that lack one of
+            # the values, out-of-order arrival, a flush of the catalogue table after every point, so
+            # that set and unset periods of file and memstore series are merged in both orders
+            vtabs = [C01_TABLES[4], C01_TABLES[0]]
+            menu = random_menu(rng, rng.randint(6, 10), ticks=(0, 7), keys=rng.choice([[1], [1, 2]]), nums=True, arrays=False, nonnumeric=False)
+            d = Directed(vtabs, menu)
+            for i in range(len(menu)):
+                d.insert_and_process()
+                if rng.random() < 0.8:
+                    d.flush("agg")
+            yield scenario_from_hist("C01-v%d" % di, vtabs, menu, d.h, int_vals=di % 2 == 0), vtabs
         n_menus, per = (6, 12) if quick else (60, 60)
         for mi in range(n_menus):
             tabs = C01_TABLES
@@ -938,10 +950,29 @@ def check_C18(args):
         # row, then drive further points (into rows already delivered, rows not
         # yet delivered and new rows) and optionally a flush through the gates
         # before the scan is released
+        # a row on an inner node of the memstore's radix tree (the empty key of points
+        # without the table's dimension is a prefix of every other key) updated in place
+        # while a scan that has taken its copy has not delivered it yet
+        for pi, (k0, kk) in enumerate([(7, (1, 2)), (7, (2, 4)), (10, (8, 8))]):
+            tabs = C18_TABLES
+            tn = "b" if k0 == 7 else "a"
+            menu = [point(1, 2, k0), point(2, 2, kk[0]), point(3, 3, kk[1]), point(4, 2, k0), point(5, 1, k0)]
+            for hold in (True, False):
+                d = Directed(tabs, menu)
+                for i in range(3):
+                    d.insert_and_process()
+                d.h.append({"a": "ScanBegin", "t": tn, "mem": True, "j": 0 if hold else 1, "hold": hold})
+                d.insert_and_process()
+                d.insert_and_process()
+                d.h.append({"a": "ScanEnd", "t": tn})
+                yield scenario_from_hist("C18-p%d%s" % (pi, "h" if hold else ""), tabs, menu, d.h, probe_every=False), tabs
         for di in range(40 if quick else 600):
             tabs = C18_TABLES
             n0, n1 = rng.randint(2, 6), rng.randint(1, 5)
-            menu = random_menu(rng, n0 + n1, ticks=(1, 4), arrays=False, nonnumeric=False)
+            # every third scenario uses keys whose encodings are byte-prefixes of each other
+            # (no dimension at all, an explicit nil): rows that sit on inner nodes of the radix tree
+            keys = [7, 10, 8, 1, 2] if di % 3 == 1 else None
+            menu = random_menu(rng, n0 + n1, ticks=(1, 4), arrays=False, nonnumeric=False, keys=keys)
             t = rng.choice(tabs).name
             d = Directed(tabs, menu)
             for i in range(n0):
@@ -959,7 +990,7 @@ def check_C18(args):
                     d.insert_and_process()
                 d.h.append({"a": "ScanEnd", "t": t})
             else:
-                d.h.append({"a": "ScanBegin", "t": t, "mem": True, "j": rng.randint(0, 3), "hold": rng.random() < 0.3})
+                d.h.append({"a": "ScanBegin", "t": t, "mem": True, "j": rng.randint(0, 3), "hold": rng.random() < (0.6 if keys else 0.3)})
                 for i in range(n1):
                     d.insert_and_process()
                     if rng.random() < 0.25:
